@@ -82,6 +82,11 @@ def run_unit(unit, ctx):
         R.evals += 1
         return R.out()
     ectx = monitors.EkfCtx(defn)
+    if defn["sensors"] and unit.get("i", 0) % 3 == 0:
+        # another filter with the same sensor names is built after this one and stays alive
+        from .c05 import sibling_filter
+
+        sibling_filter(R, rng, defn, cse)
     n, k = len(defn["state"]), len(defn["calibration"])
     prev_dt = None
     twins = []
